@@ -99,6 +99,14 @@ var globalProgress atomic.Int64
 
 func beat() { globalProgress.Add(1) }
 
+// stepMark is the value of the seam-event counter when the current logical step (one call under test, one rebuild, one restore)
+// began. A step that produces more than stepBudget seam events without finishing is a livelock: a logical bound, not a deadline.
+var stepMark atomic.Int64
+
+const stepBudget = 400_000
+
+func stepBegin() { stepMark.Store(globalProgress.Load()) }
+
 type Worker struct {
 	Scratch string
 	Tier    string
@@ -242,6 +250,17 @@ func runWorker(prop, tier, casesPath, outPath, scratch string, shard, of int, sk
 				break wait
 			case <-tick.C:
 				cur := globalProgress.Load()
+				if cur-stepMark.Load() > stepBudget {
+					buf := make([]byte, 8<<20)
+					n := runtime.Stack(buf, true)
+					_, summary := classifyDump(string(buf[:n]))
+					what, _ := currentNote.Load().(string)
+					fmt.Fprintf(os.Stderr, "WATCHDOG case=%s livelock: more than %d seam events in one step (%s)\n%s\n", c.ID, stepBudget, what, string(buf[:n]))
+					r := Result{Case: c.ID, Verdict: "violation", Sig: "livelock|" + hangSig(summary), Msg: fmt.Sprintf("call never returned: it performed more than %d drive/index-store events without finishing (%s): %s", stepBudget, what, summary), Detail: map[string]any{"case": c}}
+					emit("R", r)
+					tick.Stop()
+					return 3
+				}
 				if cur != last {
 					last = cur
 					lastChange = time.Now()
